@@ -118,6 +118,12 @@ func main() {
 		fmt.Fprintln(os.Stderr, "pikelint: known_findings.json:", err)
 		os.Exit(2)
 	}
+	if *tier == "thorough" {
+		defaultMaxVisits = 5 // loop bodies followed for four iterations instead of two
+	}
+	if v := os.Getenv("PIKELINT_MAXVISITS"); v != "" {
+		fmt.Sscan(v, &defaultMaxVisits)
+	}
 	rc := 0
 	var p386 *Program
 	needs386 := map[string]bool{"C04": true, "C07": true, "C09": true, "C11": true, "C12": true}
